@@ -1,4 +1,4 @@
-\* thorough design model: as MC_ChemkinDoc.cfg with <= 3 molecules per side (15 sides, 210 reactions
+\* thorough design model: as MC_ChemkinDoc.cfg with <= 3 molecules per side, coefficients 1-3 (18 sides
 \* per species choice)
 SPECIFICATION Spec
 CONSTANTS
@@ -7,7 +7,7 @@ CONSTANTS
   MaxSp = 3
   MaxRx = 2
   MaxMol = 3
-  MaxCoef = 2
+  MaxCoef = 3
   GasTest = "all"
   LoneBulk = FALSE
   SDelims <- MCSDelims
